@@ -8,17 +8,6 @@ open LB (Byte)
 
 /-! ### what the block parser must produce -/
 
-def linesOf : List Rec → List SourceLine
-  | [] => []
-  | .line addr size ln fl :: rest => ⟨addr, size, fl, ln⟩ :: linesOf rest
-  | _ :: rest => linesOf rest
-
-def inlineesOf : List Rec → List Inlinee
-  | [] => []
-  | .inline depth callLine callFile org r0 ranges :: rest =>
-    (r0 :: ranges).map (fun p => ⟨depth, p.1, p.2, callFile, callLine, org⟩) ++ inlineesOf rest
-  | _ :: rest => inlineesOf rest
-
 def funcInfoOf (name : List Byte) (size : Nat) (body : List Rec) : FuncInfo :=
   ⟨name, size, linesOf body, (inlineesOf body).mergeSort inlLE⟩
 
